@@ -46,9 +46,17 @@ func C04Members() []func(a *App) {
 			a.Eps = append(a.Eps, &Endpoint{Kind: "event", Name: "Ev", Stmts: []*Stmt{{Kind: "action", Text: "e"}}})
 			a.Types = append(a.Types, &TypeDecl{Kind: "enum", Name: "E", Items: []EnumItem{{"A", "1"}, {"B", "2"}}})
 		},
+		// 9 (C08 only): the type re-opened once more, re-declaring two of its fields (a field declared n
+		// times carries n locations)
+		// (appended after member 8 below)
 		// 8: a view-free alias and a union
 		func(a *App) {
 			a.Types = append(a.Types, &TypeDecl{Kind: "alias", Name: "L", Alias: &TypeExpr{Prim: "string", Wrap: "sequence"}}, &TypeDecl{Kind: "union", Name: "Un", Members: []TypeExpr{prim("int"), prim("string")}})
+		},
+		// 9: fields a and c of T declared again (c as a collection)
+		func(a *App) {
+			t := typeT(a)
+			t.Fields = append(t.Fields, &Field{Name: "a", T: prim("int")}, &Field{Name: "c", T: TypeExpr{RefApp: []string{"Other"}, Ref: []string{"U"}, Wrap: "sequence"}}, &Field{Name: "b", T: TypeExpr{Prim: "string", Wrap: "set"}})
 		},
 	}
 }
